@@ -746,6 +746,10 @@ def run(ctx):
     r12gh(ctx, reg)
     r12i(ctx, reg)
     r12j(ctx, reg)
+    # `clone` is one of the access paths of the property: a clone must be a detached copy of its own (rules shared with C10)
+    from .c10 import r10c, r10g
+    r10c(ctx)
+    r10g(ctx)
 
 
 from ..selftest import Seed, unparse_seed  # noqa: E402
